@@ -199,6 +199,8 @@ class d3TimeScaleMilliseconds(object):
         pass
 
     def range(self, start, stop, step):
+        # ticks are whole milliseconds: range() needs an integer step >= 1
+        step = max(1, int(round(step)))
         return list(
             map(
                 milli2dt,
